@@ -461,6 +461,20 @@ impl Property for C03 {
                         v.violate(c, format!("solve #{i}: {d}"));
                     }
                 }
+                Outcome::Unsolvable(Some(r)) => {
+                    // building the graph panicked: inside conflict.rs this is the report failing its own
+                    // sanity checks (e.g. nodes not reachable from the root), which is this property's business
+                    match &r.render_panic {
+                        Some(p) if p.file.ends_with("conflict.rs") => {
+                            v.evaluated = true;
+                            v.violate(
+                                format!("graph:panic:{}", p.site()),
+                                format!("solve #{i}: building / rendering the conflict report panicked at {}:{}: {}", p.file, p.line, p.msg),
+                            );
+                        }
+                        _ => v.aborted_other = true,
+                    }
+                }
                 Outcome::Ok(_) | Outcome::Cancelled(Some(Token::Cancel { .. })) => v.skipped_pre = true,
                 _ => v.aborted_other = true,
             }
@@ -646,11 +660,29 @@ impl Property for C06 {
             let other: Vec<String> = r2.outcomes.iter().map(observable).collect();
             if other != base {
                 v.violate(
-                    "salt-divergence",
-                    format!("salt {} gives {:?}\nsalt {} gives {:?}", sc.hash_salt, base, salt, other),
+                    "output-divergence",
+                    format!("different hash seeds give different output: salt {} gives {:?}\nsalt {} gives {:?}", sc.hash_salt, base, salt, other),
                 );
                 break;
             }
+        }
+        // "repeated runs ... independent of allocation addresses": the same salt again, with a different heap
+        // layout (ballast allocations of varying size are kept alive across the repetitions)
+        if v.violation.is_none() {
+            let mut ballast: Vec<Vec<u8>> = Vec::new();
+            for rep in 0..6usize {
+                ballast.push(vec![0u8; 24 + 40 * rep]);
+                let r2 = execute_with_salt(sc, sc.hash_salt);
+                let other: Vec<String> = r2.outcomes.iter().map(observable).collect();
+                if other != base {
+                    v.violate(
+                        "output-divergence",
+                        format!("two executions with identical hash seeds differ: {:?} vs {:?}", base, other),
+                    );
+                    break;
+                }
+            }
+            drop(ballast);
         }
         v
     }
@@ -728,8 +760,22 @@ impl Property for C08 {
     fn gen(&self, seed: u64, tier: Tier) -> Vec<Scenario> {
         let mut base = GenParams::conflict_rich();
         base.p_union = if seed % 4 == 0 { 2 } else { 0 };
-        base.max_root_reqs = 3;
+        base.max_root_reqs = 4;
         base.max_reqs = 3;
+        if seed % 3 != 0 {
+            // direct requirements with wide version sets (so that their best candidates are usually jointly
+            // installable) over dependencies with narrow ones and many constrains (conflicts below the roots)
+            base.root_vs_weights = Some([6, 0, 2, 2]);
+            base.max_root_constraints = 0;
+            base.min_packages = 4;
+            base.max_packages = 10;
+            base.max_candidates = 4;
+            base.max_constrains = 3;
+            base.p_unknown = 0;
+            base.p_excluded = 0;
+            base.p_locked = 0;
+            base.vs_weights = [1, 6, 5, 3];
+        }
         let mut sc = std_scenario(seed, &swarm(seed, base, tier), None);
         // root requirements must be single version sets
         let w = sc.world.clone();
